@@ -8,7 +8,7 @@ MUTANTS = [
     M("caption-optional-returned", D, "    def get_caption(self) -> str:\n        return self.caption.strip()\n\n    def get_description(self) -> str:\n        return \"\"\n\n    def get_metadata(self) -> ImageMetadata:\n        return ImageMetadata(\n            image_number=self.image_number,", "    def get_caption(self) -> str:\n        return None\n\n    def get_description(self) -> str:\n        return \"\"\n\n    def get_metadata(self) -> ImageMetadata:\n        return ImageMetadata(\n            image_number=self.image_number,", "C04-STR"),
     M("odt-caption-none", X + "open_office/odt_extractor.py", "        caption = title_elem.text if title_elem is not None and title_elem.text else \"\"\n        if not caption and name:", "        caption = title_elem.text if title_elem is not None else \"\"\n        if not caption and name and False:", "C04-STR"),
     M("rtf-normaliser-dropped", X + "ms_legacy/rtf_extractor.py", "        return _combine_surrogates(\"\".join(result))", "        return \"\".join(result)", "C04-CHR"),
-    M("rtf-simple-normaliser-dropped", X + "ms_legacy/rtf_extractor.py", "        result = _combine_surrogates(\n            _RE_UNICODE.sub(lambda m: chr(int(m.group(1)) & 0xFFFF), result)\n        )", "        result = _RE_UNICODE.sub(lambda m: chr(int(m.group(1)) & 0xFFFF), result)", "C04-CHR"),
+    M("rtf-simple-normaliser-dropped", X + "ms_legacy/rtf_extractor.py", "        result = _combine_surrogates(\n            _replace_unicode_escapes(result, int(uc_match.group(1)) if uc_match else 1)\n        )", "        result = _replace_unicode_escapes(result, int(uc_match.group(1)) if uc_match else 1)", "C04-CHR"),
     M("decode-surrogateescape", X + "plain_extractor.py", '    return content.decode("utf-8", errors="replace"), "utf-8"', '    return content.decode("utf-8", errors="surrogateescape"), "utf-8"', "C04-CHR"),
     M("size-not-len-of-payload", X + "ms_modern/xlsx_extractor.py", "                                size_bytes=len(image_bytes),", "                                size_bytes=len(image_bytes) + 0 if width else 0,", "C04-BYTES"),
     M("get-dim-first-row", D, "        rows = len(self.data)\n        columns = max((len(row) for row in self.data), default=0)\n        return TableDim(rows=rows, columns=columns)\n\n\n@dataclass\nclass XlsxContent", "        rows = len(self.data)\n        columns = len(self.data[0]) if self.data else 0\n        return TableDim(rows=rows, columns=columns)\n\n\n@dataclass\nclass XlsxContent", "C04-DIM"),
